@@ -1,6 +1,9 @@
 (* Lemmas for C20: for every response (any list of actions), every fault
    position, every error class and every handler / server specification that
    satisfies the decidable conditions spec_ok / server_ok. *)
+(* every command of this file is bounded (the largest, one kernel evaluation of the
+   whole finite domain, takes ~12 s) *)
+Set Default Timeout 300.
 From Coq Require Import List Arith Bool Lia.
 Import ListNotations.
 From PG Require Import Model.Conn.
